@@ -179,10 +179,15 @@ func runC13() {
 	PlaceRoutes(m, true)
 	// optionally the same prefix advertised by a near and a far exit
 	shared := ""
+	var sharers []int
 	if len(m.Nodes) >= 3 && simrt.Chance(1, 2, "shared-prefix") {
 		shared = "10.250.0.0/16"
-		a, b := 0, len(m.Nodes)-1
-		for _, j := range []int{a, b} {
+		sharers = []int{0, len(m.Nodes) - 1}
+		if len(m.Nodes) >= 4 {
+			sharers = append(sharers, 1+simrt.Choose(len(m.Nodes)-2, "third-sharer"))
+			simrt.Probe("c13_three_exits_share_prefix")
+		}
+		for _, j := range sharers {
 			m.Nodes[j].Cfg.Exit.Enabled = true
 			m.Nodes[j].Cfg.Exit.Routes = append(m.Nodes[j].Cfg.Exit.Routes, shared)
 		}
@@ -190,30 +195,15 @@ func runC13() {
 	BootAndConverge(m)
 	checkMetrics(m)
 	if shared != "" {
-		// the statement's corollary: among equally specific routes the one whose
-		// recorded path is shorter (the nearer exit, as recorded) is preferred
-		for i, nd := range m.Nodes {
-			var held []RouteView
-			for _, rv := range m.RoutesAt(i) {
-				if rv.Table == "cidr" && rv.Key == shared && rv.Origin != nd.ID {
-					held = append(held, rv)
-				}
-			}
-			if len(held) < 2 || len(held[0].Path) == len(held[1].Path) || nd.Cfg.Exit.Enabled && ContainsStr(nd.Cfg.Exit.Routes, shared) {
-				continue
-			}
-			r := nd.A.VerifRouteManager().Lookup(net.ParseIP("10.250.1.1"))
-			if r == nil {
-				simrt.Failf("route-not-learned", "shared prefix not learned", "%s", nd.Name)
-			}
-			near := held[0]
-			if len(held[1].Path) < len(near.Path) {
-				near = held[1]
-			}
-			simrt.Probe("c13_near_far_compared")
-			if r.OriginAgent != near.Origin {
-				simrt.Failf("farther-exit-preferred", "lookup prefers the farther of two exits for the same prefix", "%s holds [%s] [%s] but lookup returns origin %s", nd.Name, m.RouteStr(held[0]), m.RouteStr(held[1]), m.NameOf(r.OriginAgent))
-			}
+		checkPreference(m, shared, "after convergence")
+		// one of the sharing exits shuts down gracefully (it withdraws its
+		// routes): the remaining routes must still be preferred by distance
+		if len(sharers) >= 3 && simrt.Chance(2, 3, "withdraw-one") {
+			victim := sharers[simrt.Choose(len(sharers), "victim")]
+			m.Stop(victim)
+			simrt.Probe("c13_exit_withdrew")
+			simrt.Sleep(1500 * time.Millisecond)
+			checkPreference(m, shared, "after one exit withdrew")
 		}
 	}
 	m.StopAll()
@@ -697,4 +687,53 @@ func make63(c byte) []byte {
 		b[i] = c
 	}
 	return b
+}
+
+// checkPreference: among the equally specific routes an agent holds for the
+// shared prefix, lookup returns one whose recorded path is shortest.
+func checkPreference(m *Mesh, shared, when string) {
+	for i, nd := range m.Nodes {
+		if !nd.Running {
+			continue
+		}
+		var held []RouteView
+		own := false
+		for _, rv := range m.RoutesAt(i) {
+			if rv.Table == "cidr" && rv.Key == shared {
+				if rv.Origin == nd.ID {
+					own = true
+				} else {
+					held = append(held, rv)
+				}
+			}
+		}
+		if own || len(held) < 2 {
+			continue
+		}
+		best := len(held[0].Path)
+		varied := false
+		for _, h := range held {
+			if len(h.Path) != best {
+				varied = true
+			}
+			if len(h.Path) < best {
+				best = len(h.Path)
+			}
+		}
+		if !varied {
+			continue
+		}
+		r := nd.A.VerifRouteManager().Lookup(net.ParseIP("10.250.1.1"))
+		if r == nil {
+			simrt.Failf("route-not-learned", "shared prefix not learned", "%s %s", nd.Name, when)
+		}
+		simrt.Probe("c13_near_far_compared")
+		if len(r.Path) != best {
+			desc := ""
+			for _, h := range held {
+				desc += " [" + m.RouteStr(h) + "]"
+			}
+			simrt.Failf("farther-exit-preferred", "lookup prefers a farther exit for the same prefix", "%s: %s holds%s but lookup returns origin %s with a %d-hop path", when, nd.Name, desc, m.NameOf(r.OriginAgent), len(r.Path))
+		}
+	}
 }
